@@ -6,7 +6,9 @@ import c06
 
 ASSUMPTIONS = c06.ASSUMPTIONS + [
   "workbooks containing a function outside the core language are not covered by the model; they are skipped and counted (not_covered_outside_core_language)",
-  "dynamic-array workbooks are not generated here (the restart loop of phase 1 is not modelled); see C07/C31",
+  "dynamic arrays appear only in the multi-step scripts, read by plain formulas (no dynamic consumer of another spill: the restart loop of phase 1 is not modelled; see C07/C31)",
+  "a full-column / full-row range is accepted only as a direct argument of an aggregate and is handed to the model clipped to the used area (+8 rows/columns) of the REFERENCED sheet, computed by the harness from sheet_data: grid-wide meaning, since every cell beyond is empty and aggregates skip empty cells (the implementation's own clipping in SUM is an optimisation that must not change the value)",
+  "the model is started from the implementation's state BEFORE each evaluate (stored values, spill cells and array extents left by the previous evaluate included)",
   "the dependency graph used by the oracle classes is syntactic (every reference and range of the parsed formula), as in the theorems",
 ]
 
@@ -39,12 +41,13 @@ def run(cfg):
         hint, inputs = (hints[i].split("\t") + ["[]"])[:2]
         flags = dict(h.split(":") for h in hint.split(" ") if ":" in h)
         for cell in line.split(" ")[1:]:
-            f = flags.get(cell, "000")
+            f = (flags.get(cell, "0000") + "0000")[:4]
             # tight classes, decided by a predicate on (workbook, cell):
             #  cyc: the cell is on, or depends on, a dependency cycle            -> F10
             #  rz : a formula cell it reads directly stores the number 0         -> F30 (raw EmptyCell vs stored 0)
             #  rn : a formula cell it reads directly stores #NUM!                -> F31 (raw inf vs stored #NUM!)
-            cls = "absorbed_cycle" if f[0] == "1" else "raw_vs_stored_empty" if f[1] == "1" else "raw_vs_stored_nonfinite" if f[2] == "1" else "inconsistent_value"
+            #  pl : it reads a non-anchor cell of a CSE array entered since the previous evaluate -> F40 (placeholder)
+            cls = "absorbed_cycle" if f[0] == "1" else "cse_placeholder_first_evaluate" if f[3] == "1" else "raw_vs_stored_empty" if f[1] == "1" else "raw_vs_stored_nonfinite" if f[2] == "1" else "inconsistent_value"
             per_class[cls] = per_class.get(cls, 0) + 1
             if per_class[cls] <= 5:
                 failures.append({"class": cls, "input": {"inputs": json.loads(inputs), "cell": cell},
@@ -52,12 +55,12 @@ def run(cfg):
     return {
         "evaluations": n + checked + meta.get("oracle_checked", 0),
         "distinct_nontrivial": meta.get("distinct_nontrivial", 0),
-        "rule": "generated workbooks over 3 sheets (6-40 cells; DAGs, chains of depth 200, cycles of length 1-5 with and without error-absorbing functions, cross-sheet references, formulas whose result is empty or overflows) plus the design-phase witnesses: (i) stored values of every cell, implementation vs the extracted store evaluator run in the implementation's cell order; (ii) values_consistent_b — every formula cell re-evaluated by the model's expression semantics over the implementation's OWN stored values must equal its stored value; (iii) #CIRC! only on a cycle or when reading #CIRC!, and cells on a cycle show #CIRC!. Non-trivial = workbooks with at least one non-error, non-empty value",
+        "rule": "generated SCRIPTS over 3 sheets (6-40 cells; DAGs, chains of depth 200, cycles of length 1-5 with and without error-absorbing functions, cross-sheet references, formulas whose result is empty or overflows; full-column / full-row ranges A:A 1:1 A:B 2:3 as arguments of SUM COUNT COUNTA MIN MAX AVERAGE, same-sheet and cross-sheet, referenced sheet larger and smaller than the formula sheet; MULTI-STEP scripts: CSE and dynamic arrays over literals with readers of their non-anchor cells placed before and after them in sheet order — build, evaluate, change inputs, evaluate again, up to 3 evaluations) plus the design-phase witnesses; EVERY evaluate of a script gives: (i) stored values of every cell, implementation vs the extracted store evaluator run in the implementation's cell order; (ii) values_consistent_b — every formula cell re-evaluated by the model's expression semantics over the implementation's OWN stored values must equal its stored value; (iii) #CIRC! only on a cycle or when reading #CIRC!, and cells on a cycle show #CIRC!. Non-trivial = workbooks with at least one non-error, non-empty value",
         "samples": meta.get("samples", []),
         "disagreements": dis, "n_disagreements": ndis,
         "oracle_failures": failures,
         "exhaustive": False,
-        "extra": {"input_distribution": meta.get("distribution", {}), "workbooks": meta.get("workbooks"),
+        "extra": {"input_distribution": meta.get("distribution", {}), "workbooks": meta.get("workbooks"), "evaluations_of_scripts": meta.get("evaluations"),
                   "not_covered_outside_core_language": meta.get("not_covered_outside_core_language"),
                   "consistency_workbooks_checked": checked, "consistency_workbooks_consistent": ncons,
                   "oracle_failures_per_class": per_class, "circ_cells_checked": meta.get("oracle_checked"),
